@@ -6,6 +6,7 @@ A pattern is a sequence of whitespace-separated tokens:
     */re/          exactly one word fully matching re (re cannot match whitespace), captured
     ~   (last)     one or more words: the rest of the line, captured as written
     ... (last)     at least one more word, not captured
+    (x|y)          one word out of the listed literals, not captured (in patterns that have a placeholder)
     (?i)           glued in front of the first token: literals compare case-insensitively
 A row matches when it starts with the corresponding words, separated by one or more blanks; after the
 last token anything may follow provided it starts at a word boundary.
@@ -78,6 +79,11 @@ def ref_match(pattern: str, row: str):
             if not re.fullmatch(t[2:-1], word, fl):
                 return None
             key.append(word)
+        elif t.startswith("(") and t.endswith(")"):
+            # a parenthesised alternative of literals, (x|y): one word out of the alternatives, not part of the key
+            alts = t[1:-1].replace("?:", "", 1).split("|")
+            if not any((word.lower() == a.lower()) if icase else (word == a) for a in alts):
+                return None
         else:
             if icase:
                 if word.lower() != t.lower():
